@@ -23,6 +23,9 @@ type Alpha struct {
 	PT        bool     // offer R_pt
 	Settings  bool     // offer R_set
 	NoKubelet bool     // do not offer ready/gone/gc
+	// SpecEdits: deviation: other user edits of the spec: "drop-canary" removes spec.strategy.canary (a complete,
+	// defaulted spec remains), "canary-replicas=<v>" changes spec.strategy.canary.replicas
+	SpecEdits []string
 	Templates []string // deviation: setTemplate to each of these tags (when different from the current one)
 	Annots    []string // deviation: annotate "key=value" / "key-"
 	Kubectl   []string // deviation: kubectl-eds commands
@@ -115,6 +118,15 @@ func (a *Alpha) Enabled(s *State) []Event {
 				evs = append(evs, Event{K: "setTemplate", A: nn(e), B: t, Dev: dev})
 			}
 		}
+		for _, ed := range a.SpecEdits {
+			if e.Spec.Strategy.Canary == nil {
+				continue
+			}
+			if kv := strings.SplitN(ed, "=", 2); len(kv) == 2 && e.Spec.Strategy.Canary.Replicas != nil && e.Spec.Strategy.Canary.Replicas.String() == kv[1] {
+				continue
+			}
+			evs = append(evs, Event{K: "editSpec", A: nn(e), B: ed, Dev: dev})
+		}
 		for _, an := range a.Annots {
 			if strings.HasSuffix(an, "-") {
 				if _, ok := Annot(e, strings.TrimSuffix(an, "-")); !ok {
@@ -181,10 +193,29 @@ func (a *Alpha) Enabled(s *State) []Event {
 		if a.DelNodes {
 			evs = append(evs, Event{K: "delNode", A: n.Name, Dev: dev})
 		}
-		if len(n.Spec.Taints) == 0 {
-			for _, eff := range a.Taints {
-				evs = append(evs, Event{K: "taint", A: n.Name, B: eff, Dev: dev})
+		for _, eff := range a.Taints {
+			// "cordon" appends node.kubernetes.io/unschedulable:NoSchedule (tolerated by every daemon pod) - also to a node
+			// that already carries another taint, so that taint lists of length two arise in both orders
+			key := "verif/taint"
+			if eff == "cordon" {
+				key = "node.kubernetes.io/unschedulable"
 			}
+			has, hasHarness := false, false
+			for _, t := range n.Spec.Taints {
+				if t.Key == key {
+					has = true
+				}
+				if t.Key == "verif/taint" {
+					hasHarness = true
+				}
+			}
+			if has || (eff != "cordon" && hasHarness) {
+				continue
+			}
+			if eff != "cordon" && len(n.Spec.Taints) > 0 && !contains(a.Taints, "cordon") {
+				continue // alphabets without cordon keep the old rule: only untainted nodes are tainted
+			}
+			evs = append(evs, Event{K: "taint", A: n.Name, B: eff, Dev: dev})
 		}
 	}
 	for _, t := range a.Ticks {
